@@ -8,8 +8,9 @@ EXTENDS Integers, Sequences, FiniteSets, TLC, Json
 Log == ndJsonDeserialize("trace.ndjson")
 
 Types == {"L22", "L3", "OFF"}
-VARIABLES l, cfg, rep, exp, expState, expExt, expDrop, closed, dirsSeen
-vars == <<l, cfg, rep, exp, expState, expExt, expDrop, closed, dirsSeen>>
+VARIABLES l, cfg, rep, exp, expState, expExt, expDrop, closed, dirsSeen,
+          hist   \* session directory -> expected file bodies, frozen when that session ended (STOP, or a START accepted while active)
+vars == <<l, cfg, rep, exp, expState, expExt, expDrop, closed, dirsSeen, hist>>
 
 NoRep == [active |-> FALSE, paused |-> FALSE, l22 |-> FALSE, l3 |-> FALSE, off |-> FALSE, dir |-> 0]
 NoCfg == [scen |-> 0, nchan |-> 0]
@@ -17,7 +18,7 @@ EmptyExp(n) == [c \in 0..(n-1) |-> [t \in Types |-> <<>>]]
 NoClosed == [valid |-> FALSE]
 
 Init == /\ l = 1 /\ cfg = NoCfg /\ rep = NoRep /\ exp = <<>> /\ expState = <<>> /\ expExt = <<>>
-        /\ expDrop = <<>> /\ closed = NoClosed /\ dirsSeen = {}
+        /\ expDrop = <<>> /\ closed = NoClosed /\ dirsSeen = {} /\ hist = [d \in {} |-> 0]
 
 Report(preds) == \A p \in preds : PrintT(<<"VIOL", l, p[1], cfg.scen, p[2]>>)
 P(name) == <<name, "">>
@@ -48,6 +49,8 @@ ReqStep(e) ==
         \cup When(lab /\ ~rep.active, "C20_label_inactive"))
   /\ rep' = r
   /\ dirsSeen' = IF r.dir # 0 THEN dirsSeen \cup {r.dir} ELSE dirsSeen
+  /\ hist' = IF (isStart \/ isStop) /\ rep.active
+             THEN [d \in DOMAIN hist \cup {rep.dir} |-> IF d = rep.dir THEN exp ELSE hist[d]] ELSE hist
   /\ IF isStart
      THEN /\ exp' = EmptyExp(cfg.nchan) /\ expState' = <<"START">> /\ expExt' = <<>> /\ expDrop' = <<>>
           /\ closed' = NoClosed
@@ -93,7 +96,7 @@ FileStep(e) ==
         \cup When(Frames(e.recs) # Frames(want), "C05_body")
         \cup When(Frames(e.recs) = Frames(want) /\ e.recs # want, "C05_body")
         \cup (IF e.exists /\ e.perr = "" THEN HdrPreds(e) ELSE {}))
-  /\ UNCHANGED <<cfg, rep, exp, expState, expExt, expDrop, closed, dirsSeen>>
+  /\ UNCHANGED <<cfg, rep, exp, expState, expExt, expDrop, closed, dirsSeen, hist>>
 
 SideStep(e) ==
   LET ok == closed.valid /\ closed.dir = e.dir IN
@@ -104,7 +107,7 @@ SideStep(e) ==
         \cup When(ok /\ (e.drops # closed.drop \/ ~e.drop_ok), "C20_drop")
         \cup When(ok /\ (e.state # closed.state \/ ~e.state_ok \/ ~e.state_exists), "C20_state")
         \cup When(ok /\ Len(e.state) > 0 /\ (e.state[1] # "START" \/ e.state[Len(e.state)] # "STOP"), "C20_state_shape"))
-  /\ UNCHANGED <<cfg, rep, exp, expState, expExt, expDrop, closed, dirsSeen>>
+  /\ UNCHANGED <<cfg, rep, exp, expState, expExt, expDrop, closed, dirsSeen, hist>>
 
 Step ==
   /\ l <= Len(Log)
@@ -112,27 +115,33 @@ Step ==
   /\ LET e == Log[l] IN
      CASE e.ev = "Config" ->
             /\ cfg' = e /\ rep' = NoRep /\ exp' = EmptyExp(e.nchan) /\ expState' = <<>> /\ expExt' = <<>>
-            /\ expDrop' = <<>> /\ closed' = NoClosed /\ dirsSeen' = {}
+            /\ expDrop' = <<>> /\ closed' = NoClosed /\ dirsSeen' = {} /\ hist' = [d \in {} |-> 0]
        [] e.ev = "Req" -> ReqStep(e)
+       [] e.ev = "FileFinal" ->
+            \* every session directory is read again at the end: what a channel stored there must be exactly what was
+            \* published while that session was the reported one (a writer that outlives its session is caught here)
+            /\ LET want == IF e.dir \in DOMAIN hist THEN hist[e.dir][e.c][e.t] ELSE <<>> IN
+               Report(When(e.frames # Frames(want), "C06_behaviour") \cup When(e.frames # Frames(want), "C05_body"))
+            /\ UNCHANGED <<cfg, rep, exp, expState, expExt, expDrop, closed, dirsSeen, hist>>
        [] e.ev = "Label" ->
             /\ Report(When(e.ok /\ ~rep.active, "C20_label_inactive"))
             /\ expState' = IF e.ok /\ rep.active THEN Append(expState, e.label) ELSE expState
-            /\ UNCHANGED <<cfg, rep, exp, expExt, expDrop, closed, dirsSeen>>
+            /\ UNCHANGED <<cfg, rep, exp, expExt, expDrop, closed, dirsSeen, hist>>
        [] e.ev = "Block" ->
             /\ expExt' = IF rep.active THEN expExt \o e.ext ELSE expExt
             /\ expDrop' = IF rep.active /\ e.drop > 0 THEN Append(expDrop, <<e.first, e.drop>>) ELSE expDrop
-            /\ UNCHANGED <<cfg, rep, exp, expState, closed, dirsSeen>>
+            /\ UNCHANGED <<cfg, rep, exp, expState, closed, dirsSeen, hist>>
        [] e.ev = "Pub" ->
             /\ exp' = [exp EXCEPT ![e.c] = [t \in Types |->
                           IF Reported(e.c, t) THEN Append(exp[e.c][t], <<e.f, X(e, t)>>) ELSE exp[e.c][t]]]
-            /\ UNCHANGED <<cfg, rep, expState, expExt, expDrop, closed, dirsSeen>>
+            /\ UNCHANGED <<cfg, rep, expState, expExt, expDrop, closed, dirsSeen, hist>>
        [] e.ev = "File" -> FileStep(e)
        [] e.ev = "Side" -> SideStep(e)
        [] e.ev = "Panic" ->
             /\ Report({P("C06_nocrash")})
-            /\ UNCHANGED <<cfg, rep, exp, expState, expExt, expDrop, closed, dirsSeen>>
+            /\ UNCHANGED <<cfg, rep, exp, expState, expExt, expDrop, closed, dirsSeen, hist>>
        [] e.ev \in {"BlockEnd", "End"} ->
-            UNCHANGED <<cfg, rep, exp, expState, expExt, expDrop, closed, dirsSeen>>
+            UNCHANGED <<cfg, rep, exp, expState, expExt, expDrop, closed, dirsSeen, hist>>
 
 Spec == Init /\ [][Step]_vars
 NScen == Cardinality({i \in 1..Len(Log) : Log[i].ev = "Config"})
